@@ -819,6 +819,15 @@ class Engine:
             return [(st, 'fall')]
         raise OutOfSubset('expression statement')
 
+    def st_ImportFrom(self, node, st):
+        for a in node.names:
+            if (a.asname or a.name) == 'round' and a.name == 'teachers_round':
+                continue          # `round` then denotes teachers_round (callee contract registered under both names)
+            if a.name in self.callees and a.asname in (None, a.name):
+                continue
+            raise OutOfSubset('import %s' % ast.unparse(node))
+        return [(st, 'fall')]
+
     def st_Pass(self, node, st):
         return [(st, 'fall')]
 
